@@ -96,6 +96,22 @@ Proof.
 Qed.
 Print Assumptions c05_continue_live.
 
+(** Pause / Continue WITHOUT pauseMu (the "flag is atomic, Broadcast needs no lock"
+    variant) loses the wake-up: Continue's Broadcast lands between waitForResume's
+    re-check of the flag and its registration on the condition variable; the engine
+    then sleeps with the flag clear, the controller is done, events are pending and
+    no thread is enabled — the run never proceeds.  (With the lock this window is
+    closed: the waiter holds pauseMu from the re-check until it is registered, which
+    is what c05_continue_live rests on.) *)
+Theorem c05_serial_nolock_lost_wakeup_refuted :
+  exists o, let s := run (s_step_nl wit_prog) o (s_init wit_init [OpPause; OpContinue]) in
+  s_pc s = SParked /\ s_flag s = false /\ s_c s = CIdle /\ s_script s = [] /\ s_pq s <> [] /\
+  s_step_nl wit_prog TE s = None /\ s_step_nl wit_prog TC s = None.
+Proof.
+  exists [TC; TE; TE; TE; TE; TC; TC; TC; TE]. vm_compute. repeat split; try reflexivity. discriminate.
+Qed.
+Print Assumptions c05_serial_nolock_lost_wakeup_refuted.
+
 (** Non-vacuity: a 3-event program with a same-instant child, paused and continued
     once; the hypotheses of the theorems hold and the run completes. *)
 Definition nv_prog : program := fun id => if id =? 1 then [mk_ev 3 10 true] else [].
